@@ -124,6 +124,14 @@ def Valid.fin1 {σ} (v : Valid σ) (s : σ) (bs : Bytes) (c : CtrState) : Valid 
 def Valid.fin2 {σ} (P : AesPrims) (v : Valid σ) (s : σ) (bs : Bytes) (c : CtrState) (code : Bytes) : Valid σ :=
   { v with inner := s, dataRemaining := v.dataRemaining - bs.length, hmacMsg := [], ghostCt := v.ghostCt ++ bs, ctr := c, finalized := true, ghostMac := some ((P.hmac v.hmacKey (v.hmacMsg ++ bs)).take AUTH_CODE_LENGTH, code) }
 
+/-- an entry without ciphertext: state after a failed read of its code -/
+def Valid.emp1 {σ} (v : Valid σ) (s : σ) : Valid σ :=
+  { v with finalized := true, inner := s }
+
+/-- an entry without ciphertext: state after its code has been read and compared -/
+def Valid.emp2 {σ} (P : AesPrims) (v : Valid σ) (s : σ) (code : Bytes) : Valid σ :=
+  { v with finalized := true, inner := s, hmacMsg := [], ghostMac := some ((P.hmac v.hmacKey v.hmacMsg).take AUTH_CODE_LENGTH, code) }
+
 /-- What one `read` call does, from a state satisfying the invariant. -/
 structure ReadSpec (P : AesPrims) {σ} (S : Src σ) (L : Nat) (v : Valid σ) (n : Nat)
     (r : Out Bytes × Valid σ) : Prop where
@@ -135,7 +143,7 @@ structure ReadSpec (P : AesPrims) {σ} (S : Src σ) (L : Nat) (v : Valid σ) (n 
     bs.length ≤ v.dataRemaining ∧ r.2.dataRemaining = v.dataRemaining - bs.length ∧
     cryptBytes P v.key v.ctr bs = .ok (out, r.2.ctr) ∧ out.length = bs.length ∧
     (0 < n → 0 < v.dataRemaining → 0 < bs.length) ∧
-    (v.dataRemaining = 0 → r.2 = v) ∧
+    (v.dataRemaining = 0 → v.finalized = true → r.2 = v) ∧
     (r.2.finalized = true → v.finalized = false → ∃ c, r.2.ghostMac = some (c, c))
   /-- an error leaves everything the caller got so far as it was (nothing is returned) -/
   panic : ∀ m, r.1 = .panic m →
@@ -152,7 +160,15 @@ structure ReadSpec (P : AesPrims) {σ} (S : Src σ) (L : Nat) (v : Valid σ) (n 
         bs.length = v.dataRemaining ∧ 0 < bs.length ∧
         ((∃ e', readExact S s' AUTH_CODE_LENGTH = (.err e', s'')) ∨
          (∃ code, readExact S s' AUTH_CODE_LENGTH = (.ok code, s'') ∧
-            (P.hmac v.hmacKey (v.ghostCt ++ bs)).take AUTH_CODE_LENGTH ≠ code)))
+            (P.hmac v.hmacKey (v.ghostCt ++ bs)).take AUTH_CODE_LENGTH ≠ code))) ∨
+    (v.dataRemaining = 0 ∧ v.finalized = false ∧ ∃ s'',
+        ((∃ e', readExact S v.inner AUTH_CODE_LENGTH = (.err e', s'')) ∨
+         (∃ code, readExact S v.inner AUTH_CODE_LENGTH = (.ok code, s'') ∧
+            (P.hmac v.hmacKey v.ghostCt).take AUTH_CODE_LENGTH ≠ code)))
+  /-- an entry without ciphertext: the first successful call is the one that read and compared the code -/
+  emp : ∀ out, r.1 = .ok out → v.dataRemaining = 0 → v.finalized = false →
+    r.2.finalized = true ∧ ∃ code, readExact S v.inner AUTH_CODE_LENGTH = (.ok code, r.2.inner) ∧
+      ∃ c, r.2.ghostMac = some (c, code)
   /-- where the bytes come from and where the inner reader is left -/
   src : ∀ out, r.1 = .ok out → 0 < v.dataRemaining →
     ∃ bs s', S.rd v.inner (min v.dataRemaining n) = (.ok bs, s') ∧ r.2.ghostCt = v.ghostCt ++ bs ∧
@@ -163,16 +179,94 @@ structure ReadSpec (P : AesPrims) {σ} (S : Src σ) (L : Nat) (v : Valid σ) (n 
 theorem read_spec (P : AesPrims) (hW : P.WF) {σ} (S : Src σ) {L : Nat} (hL : L < U64)
     (v : Valid σ) (hI : Inv P L v) (n : Nat) : ReadSpec P S L v n (Valid.read P S v n) := by
   by_cases h0 : v.dataRemaining = 0
-  · have hr : Valid.read P S v n = (.ok [], v) := by unfold Valid.read; rw [if_pos h0]
-    rw [hr]
-    refine ⟨hI, rfl, rfl, ?_, ?_, ?_, ?_, ?_⟩
-    · intro out ho; cases ho
-      exact ⟨[], by simp, by simp, by simp, by simp, by simp [cryptBytes], rfl, by omega,
-        fun _ => rfl, fun a b => by rw [a] at b; cases b⟩
-    · intro m hm; cases hm
-    · intro s' hp; omega
-    · intro e he; cases he
-    · intro out _ hp; omega
+  · cases hf : v.finalized with
+    | true =>
+      have hr : Valid.read P S v n = (.ok [], v) := by
+        unfold Valid.read; rw [if_pos h0, hf]; rfl
+      rw [hr]
+      refine ⟨hI, rfl, rfl, ?_, ?_, ?_, ?_, ?_, ?_⟩
+      · intro out ho; cases ho
+        exact ⟨[], by simp, by simp, by simp, by simp, by simp [cryptBytes], rfl, by omega,
+          fun _ _ => rfl, fun a b => by rw [a] at b; cases b⟩
+      · intro m hm; cases hm
+      · intro s' hp; omega
+      · intro e he; cases he
+      · intro out _ _ hnf; rw [hf] at hnf; cases hnf
+      · intro out _ hp; omega
+    | false =>
+      obtain ⟨hmsg, hmac⟩ := hI.notfin hf
+      cases hre : readExact S v.inner AUTH_CODE_LENGTH with
+      | mk res s'' =>
+      have hinv1 : Inv P L (v.emp1 s'') :=
+        ⟨hI.len, hI.good, hI.ctrpos, (fun h => by cases h), (fun _ => h0), (fun _ _ => rfl),
+          (fun c s h => by have h' : v.ghostMac = some (c, s) := h; rw [hmac] at h'; cases h')⟩
+      cases res with
+      | err e =>
+        have hr : Valid.read P S v n = (.err e, v.emp1 s'') := by
+          unfold Valid.read; rw [if_pos h0, hf]; simp only [Bool.false_eq_true, if_false, hre]
+          try rfl
+        rw [hr]
+        refine ⟨hinv1, rfl, rfl, ?_, ?_, ?_, ?_, ?_, ?_⟩
+        · intro out ho; cases ho
+        · intro m hm; cases hm
+        · intro s' hp; omega
+        · intro e' _; exact Or.inr (Or.inr (Or.inr ⟨h0, hf, s'', Or.inl ⟨e, hre⟩⟩))
+        · intro out ho; cases ho
+        · intro out ho; cases ho
+      | panic m =>
+        have hr : Valid.read P S v n = (.panic m, v.emp1 s'') := by
+          unfold Valid.read; rw [if_pos h0, hf]; simp only [Bool.false_eq_true, if_false, hre]
+          try rfl
+        rw [hr]
+        refine ⟨hinv1, rfl, rfl, ?_, ?_, ?_, ?_, ?_, ?_⟩
+        · intro out ho; cases ho
+        · intro m' _; exact Or.inr ⟨v.inner, m, by rw [hre]⟩
+        · intro s' hp; omega
+        · intro e he; cases he
+        · intro out ho; cases ho
+        · intro out ho; cases ho
+      | ok code =>
+        have hcl := readExact_length S hre
+        have hinv2 : Inv P L (v.emp2 P s'' code) := by
+          refine ⟨hI.len, hI.good, hI.ctrpos, (fun h => by cases h), (fun _ => h0), (fun _ _ => rfl), ?_⟩
+          intro c s h
+          have h' : some ((P.hmac v.hmacKey v.hmacMsg).take AUTH_CODE_LENGTH, code) = some (c, s) := h
+          simp only [Option.some.injEq, Prod.mk.injEq] at h'
+          obtain ⟨rfl, rfl⟩ := h'
+          exact ⟨by show _ = (P.hmac v.hmacKey v.ghostCt).take AUTH_CODE_LENGTH; rw [hmsg], hcl, rfl⟩
+        by_cases hcmp : (P.hmac v.hmacKey v.hmacMsg).take AUTH_CODE_LENGTH ≠ code
+        · have hr : Valid.read P S v n = (.err (.io .invalidData), v.emp2 P s'' code) := by
+            unfold Valid.read; rw [if_pos h0, hf]; simp only [Bool.false_eq_true, if_false, hre]
+            rw [if_pos hcmp]
+            try rfl
+          rw [hr]
+          refine ⟨hinv2, rfl, rfl, ?_, ?_, ?_, ?_, ?_, ?_⟩
+          · intro out ho; cases ho
+          · intro m hm; cases hm
+          · intro s' hp; omega
+          · intro e' _
+            exact Or.inr (Or.inr (Or.inr ⟨h0, hf, s'', Or.inr ⟨code, hre, by rw [← hmsg]; exact hcmp⟩⟩))
+          · intro out ho; cases ho
+          · intro out ho; cases ho
+        · have hr : Valid.read P S v n = (.ok [], v.emp2 P s'' code) := by
+            unfold Valid.read; rw [if_pos h0, hf]; simp only [Bool.false_eq_true, if_false, hre]
+            rw [if_neg hcmp]
+            try rfl
+          have heq : (P.hmac v.hmacKey v.hmacMsg).take AUTH_CODE_LENGTH = code :=
+            Classical.byContradiction hcmp
+          rw [hr]
+          refine ⟨hinv2, rfl, rfl, ?_, ?_, ?_, ?_, ?_, ?_⟩
+          · intro out ho; cases ho
+            refine ⟨[], by simp [Valid.emp2], by simp, by simp, by simp [Valid.emp2], by simp [cryptBytes, Valid.emp2], rfl,
+              by omega, (fun _ h => by rw [hf] at h; cases h), ?_⟩
+            intro _ _
+            exact ⟨code, by show some _ = some _; rw [heq]⟩
+          · intro m hm; cases hm
+          · intro s' hp; omega
+          · intro e he; cases he
+          · intro out _ _ _
+            exact ⟨rfl, code, hre, _, rfl⟩
+          · intro out _ hp; omega
   · cases hrd : S.rd v.inner (min v.dataRemaining n) with
     | mk res s' =>
     cases res with
@@ -180,18 +274,19 @@ theorem read_spec (P : AesPrims) (hW : P.WF) {σ} (S : Src σ) {L : Nat} (hL : L
       have hr : Valid.read P S v n = (.err (.io k), { v with inner := s' }) := by
         unfold Valid.read; rw [if_neg h0]; simp only [hrd]
       rw [hr]
-      refine ⟨hI.setInner s', rfl, rfl, ?_, ?_, ?_, ?_, ?_⟩
+      refine ⟨hI.setInner s', rfl, rfl, ?_, ?_, ?_, ?_, ?_, ?_⟩
       · intro out ho; cases ho
       · intro m hm; cases hm
       · intro s'' _ _ h; rw [hrd] at h; cases h
       · intro e _; exact Or.inl ⟨k, s', hrd⟩
+      · intro out _ h0' _; exact absurd h0' h0
       · intro out ho; cases ho
     | ok bs =>
       by_cases hz : bs.length = 0 ∧ min v.dataRemaining n ≠ 0
       · have hr : Valid.read P S v n = (.err (.io .unexpectedEof), { v with inner := s' }) := by
           unfold Valid.read; rw [if_neg h0]; simp only [hrd]; rw [if_pos hz]
         rw [hr]
-        refine ⟨hI.setInner s', rfl, rfl, ?_, ?_, ?_, ?_, ?_⟩
+        refine ⟨hI.setInner s', rfl, rfl, ?_, ?_, ?_, ?_, ?_, ?_⟩
         · intro out ho; cases ho
         · intro m hm; cases hm
         · intro _ _ _ _; rfl
@@ -199,28 +294,31 @@ theorem read_spec (P : AesPrims) (hW : P.WF) {σ} (S : Src σ) {L : Nat} (hL : L
           have hb : bs = [] := List.eq_nil_of_length_eq_zero hz.1
           subst hb
           exact Or.inr (Or.inl ⟨s', hrd, by omega, by omega⟩)
+        · intro out _ h0' _; exact absurd h0' h0
         · intro out ho; cases ho
       · by_cases hov : bs.length > v.dataRemaining
         · have hr : Valid.read P S v n =
               (.panic "attempt to subtract with overflow (data_remaining)", { v with inner := s' }) := by
             unfold Valid.read; rw [if_neg h0]; simp only [hrd]; rw [if_neg hz, if_pos hov]
           rw [hr]
-          refine ⟨hI.setInner s', rfl, rfl, ?_, ?_, ?_, ?_, ?_⟩
+          refine ⟨hI.setInner s', rfl, rfl, ?_, ?_, ?_, ?_, ?_, ?_⟩
           · intro out ho; cases ho
           · intro m _; exact Or.inl ⟨bs, s', hrd, by omega⟩
           · intro s'' hp hn h; rw [hrd] at h; cases h; simp at hov
           · intro e he; cases he
+          · intro out _ h0' _; exact absurd h0' h0
           · intro out ho; cases ho
         · by_cases hsl : bs.length > n
           · have hr : Valid.read P S v n =
                 (.panic "range end index out of range for slice (buf[0..read])", { v with inner := s' }) := by
               unfold Valid.read; rw [if_neg h0]; simp only [hrd]; rw [if_neg hz, if_neg hov, if_pos hsl]
             rw [hr]
-            refine ⟨hI.setInner s', rfl, rfl, ?_, ?_, ?_, ?_, ?_⟩
+            refine ⟨hI.setInner s', rfl, rfl, ?_, ?_, ?_, ?_, ?_, ?_⟩
             · intro out ho; cases ho
             · intro m _; exact Or.inl ⟨bs, s', hrd, by omega⟩
             · intro s'' hp hn h; rw [hrd] at h; cases h; simp at hsl
             · intro e he; cases he
+            · intro out _ h0' _; exact absurd h0' h0
             · intro out ho; cases ho
           · -- the data chunk is accepted
             obtain ⟨pt, ctr', hc, hcb, hpl, hg', hcp⟩ := crypt_ok P hW hL hI bs (by omega)
@@ -258,11 +356,12 @@ theorem read_spec (P : AesPrims) (hW : P.WF) {σ} (S : Src σ) {L : Nat} (hL : L
                   rw [if_pos hrem, hnf]; simp only [Bool.false_eq_true, if_false, hre]
                   try rfl
                 rw [hr]
-                refine ⟨hfin (.err e), rfl, rfl, ?_, ?_, ?_, ?_, ?_⟩
+                refine ⟨hfin (.err e), rfl, rfl, ?_, ?_, ?_, ?_, ?_, ?_⟩
                 · intro out ho; cases ho
                 · intro m hm; cases hm
                 · intro s3 h1 h2 h; exact (heof s3 h1 h2 (hrd ▸ h)).elim
-                · intro e' _; exact Or.inr (Or.inr ⟨bs, s', s'', hrd, by omega, by omega, Or.inl ⟨e, hre⟩⟩)
+                · intro e' _; exact Or.inr (Or.inr (Or.inl ⟨bs, s', s'', hrd, by omega, by omega, Or.inl ⟨e, hre⟩⟩))
+                · intro out _ h0' _; exact absurd h0' h0
                 · intro out ho; cases ho
               | panic m =>
                 have hr : Valid.read P S v n = (.panic m,
@@ -272,11 +371,12 @@ theorem read_spec (P : AesPrims) (hW : P.WF) {σ} (S : Src σ) {L : Nat} (hL : L
                   rw [if_pos hrem, hnf]; simp only [Bool.false_eq_true, if_false, hre]
                   try rfl
                 rw [hr]
-                refine ⟨hfin (.panic m), rfl, rfl, ?_, ?_, ?_, ?_, ?_⟩
+                refine ⟨hfin (.panic m), rfl, rfl, ?_, ?_, ?_, ?_, ?_, ?_⟩
                 · intro out ho; cases ho
                 · intro m' _; exact Or.inr ⟨s', m, by rw [hre]⟩
                 · intro s3 h1 h2 h; exact (heof s3 h1 h2 (hrd ▸ h)).elim
                 · intro e he; cases he
+                · intro out _ h0' _; exact absurd h0' h0
                 · intro out ho; cases ho
               | ok code =>
                 have hcl := readExact_length S hre
@@ -298,11 +398,12 @@ theorem read_spec (P : AesPrims) (hW : P.WF) {σ} (S : Src σ) {L : Nat} (hL : L
                     rw [if_pos hcmp]
                     try rfl
                   rw [hr]
-                  refine ⟨hinv5, rfl, rfl, ?_, ?_, ?_, ?_, ?_⟩
+                  refine ⟨hinv5, rfl, rfl, ?_, ?_, ?_, ?_, ?_, ?_⟩
                   · intro out ho; cases ho
                   · intro m hm; cases hm
                   · intro s3 h1 h2 h; exact (heof s3 h1 h2 (hrd ▸ h)).elim
-                  · intro e' _; exact Or.inr (Or.inr ⟨bs, s', s'', hrd, by omega, by omega, Or.inr ⟨code, hre, by rw [← hmsg]; exact hcmp⟩⟩)
+                  · intro e' _; exact Or.inr (Or.inr (Or.inl ⟨bs, s', s'', hrd, by omega, by omega, Or.inr ⟨code, hre, by rw [← hmsg]; exact hcmp⟩⟩))
+                  · intro out _ h0' _; exact absurd h0' h0
                   · intro out ho; cases ho
                 · have hr : Valid.read P S v n = (.ok pt,
                       (v.fin2 P s'' bs ctr' code)) := by
@@ -312,9 +413,9 @@ theorem read_spec (P : AesPrims) (hW : P.WF) {σ} (S : Src σ) {L : Nat} (hL : L
                     rw [if_neg hcmp]
                     try rfl
                   rw [hr]
-                  refine ⟨hinv5, rfl, rfl, ?_, ?_, ?_, ?_, ?_⟩
+                  refine ⟨hinv5, rfl, rfl, ?_, ?_, ?_, ?_, ?_, ?_⟩
                   · intro out ho; cases ho
-                    refine ⟨bs, rfl, by omega, by omega, rfl, hcb, hpl, hpos, fun h => absurd h h0, ?_⟩
+                    refine ⟨bs, rfl, by omega, by omega, rfl, hcb, hpl, hpos, fun h _ => absurd h h0, ?_⟩
                     intro _ _
                     have : (P.hmac v.hmacKey (v.hmacMsg ++ bs)).take AUTH_CODE_LENGTH = code :=
                       Classical.byContradiction hcmp
@@ -322,6 +423,7 @@ theorem read_spec (P : AesPrims) (hW : P.WF) {σ} (S : Src σ) {L : Nat} (hL : L
                   · intro m hm; cases hm
                   · intro s3 h1 h2 h; exact (heof s3 h1 h2 (hrd ▸ h)).elim
                   · intro e he; cases he
+                  · intro out _ h0' _; exact absurd h0' h0
                   · intro out ho hp; exact ⟨bs, s', hrd, rfl, fun h => absurd hrem h, fun _ => ⟨code, hre, _, rfl⟩⟩
             · -- more data to come
               have hr : Valid.read P S v n = (.ok pt,
@@ -331,7 +433,7 @@ theorem read_spec (P : AesPrims) (hW : P.WF) {σ} (S : Src σ) {L : Nat} (hL : L
                 rw [if_neg hrem]
                 try rfl
               rw [hr]
-              refine ⟨?_, rfl, rfl, ?_, ?_, ?_, ?_, ?_⟩
+              refine ⟨?_, rfl, rfl, ?_, ?_, ?_, ?_, ?_, ?_⟩
               · refine ⟨by show (v.ghostCt ++ bs).length + (v.dataRemaining - bs.length) = L; rw [List.length_append]; omega,
                   hg', hcp, ?_, ?_, ?_, ?_⟩
                 · intro _; exact ⟨by show v.hmacMsg ++ bs = v.ghostCt ++ bs; rw [hmsg], hmac⟩
@@ -339,11 +441,12 @@ theorem read_spec (P : AesPrims) (hW : P.WF) {σ} (S : Src σ) {L : Nat} (hL : L
                 · intro h; exact absurd h hrem
                 · intro c s h; have h' : v.ghostMac = some (c, s) := h; rw [hmac] at h'; cases h'
               · intro out ho; cases ho
-                refine ⟨bs, rfl, by omega, by omega, rfl, hcb, hpl, hpos, fun h => absurd h h0, ?_⟩
+                refine ⟨bs, rfl, by omega, by omega, rfl, hcb, hpl, hpos, fun h _ => absurd h h0, ?_⟩
                 intro h1 _; have h' : v.finalized = true := h1; rw [hnf] at h'; cases h'
               · intro m hm; cases hm
               · intro s3 h1 h2 h; exact (heof s3 h1 h2 (hrd ▸ h)).elim
               · intro e he; cases he
+              · intro out _ h0' _; exact absurd h0' h0
               · intro out ho hp; exact ⟨bs, s', hrd, rfl, fun _ => rfl, fun h => absurd h hrem⟩
 
 end ZipVerif.Model.Aes
